@@ -131,7 +131,7 @@ impl Geo {
 /// whitespace); None when the content has anything else.
 pub fn simple_size(v: &[Block]) -> Option<usize> {
     fn txt(t: &gen::Txt) -> usize {
-        let w: usize = t.words.iter().map(|n| (*n).max(1) as usize).sum::<usize>() * if t.cls == gen::Cls::W { 2 } else { 1 };
+        let w: usize = t.words.iter().map(|n| (*n).max(1) as usize).sum::<usize>() * if matches!(t.cls, gen::Cls::W | gen::Cls::V) { 2 } else { 1 };
         w + t.words.len().saturating_sub(1) + t.lead as usize
     }
     let mut total = 0;
@@ -140,7 +140,7 @@ pub fn simple_size(v: &[Block]) -> Option<usize> {
             Block::P(_, i) | Block::Inl(i) => {
                 for x in i {
                     match x {
-                        Inline::Text(t) if !matches!(t.cls, gen::Cls::C | gen::Cls::M) => total += txt(t),
+                        Inline::Text(t) if !matches!(t.cls, gen::Cls::C | gen::Cls::M | gen::Cls::V) => total += txt(t),
                         _ => return None,
                     }
                 }
